@@ -59,6 +59,13 @@ class Replace(Edit):
         self.rule, self.pattern, self.template, self.occ, self.why = rule, pattern, template, occ, why
 
 
+class MatchFnClosures(Edit):
+    """rule E3 for the closures handed to `MatchFn::new`: the parameter is typed, `x.inner()(e)` is read as `x.__call(e)`,
+    and the closure's `ensures` is generated from its own body (`x.__call(e)` -> `x.sem()(e)`): self-generated condition
+    over straight-line boolean code. Closures that call anything else are left alone (they must be covered otherwise)."""
+    pass
+
+
 class Tail(Edit):
     """rule E6: `e` (tail expression of the function body) -> `let __res = e; <ghost> __res`"""
 
@@ -68,7 +75,7 @@ class Tail(Edit):
 
 class Fn:
     def __init__(self, file, impl, name, ret=None, spec='', edits=(), generics_dyn=True, props=(), attrs='',
-                 external_body=False, sig_replace=None, trusted_reason=None, as_inherent=False, impl_as=None, qual_as=None):
+                 external_body=False, sig_replace=None, trusted_reason=None, as_inherent=False, impl_as=None, qual_as=None, rename=None):
         self.file, self.impl, self.name, self.ret, self.spec = file, impl, name, ret, spec
         self.edits = list(edits)
         self.generics_dyn = generics_dyn
@@ -79,13 +86,14 @@ class Fn:
         self.trusted_reason = trusted_reason
         self.impl_as = impl_as  # emit into `impl <impl_as>` as an inherent method (monomorphisation of a generic/trait impl, rule E9)
         self.qual_as = qual_as
+        self.rename = rename  # emitted function name (trait impls of the same trait for different types become distinct inherent fns, rule E9)
         self.hide = ()  # spec functions hidden inside this function's body (proof engineering only)
         self.as_inherent = as_inherent  # method of `impl Trait for T` emitted as inherent method of T (call syntax unchanged)
 
     @property
     def qual(self):
         if self.qual_as:
-            return self.qual_as + '::' + self.name
+            return self.qual_as + '::' + (self.rename or self.name)
         impl = self.impl
         if impl and self.as_inherent and ' for ' in impl:
             impl = impl.split(' for ')[-1].strip()
@@ -226,6 +234,25 @@ def norm(s):
     return re.sub(r'\s+', '', s)
 
 
+def _norm_impl_header(h):
+    """impl generics, lifetime arguments and where clauses do not take part in the comparison; type arguments do"""
+    h = h.strip()
+    if h.startswith('<'):
+        d = 0
+        for i, c in enumerate(h):
+            if c == '<':
+                d += 1
+            elif c == '>':
+                d -= 1
+                if d == 0:
+                    h = h[i + 1:]
+                    break
+    h = re.sub(r'\bwhere\b.*', '', h, flags=re.S)
+    h = re.sub(r"<\s*'\w+\s*>", '', h)
+    h = re.sub(r"'\w+\s*,\s*", '', h)
+    return norm(h)
+
+
 def find_impl(src, header):
     """header e.g. 'CompiledDfa' or 'ScannerModeSwitcher for ScannerImpl' (generics ignored)"""
     res = []
@@ -236,13 +263,7 @@ def find_impl(src, header):
         while src.toks[j].text != '{':
             j = src.pair[j] + 1 if src.toks[j].text in OPEN else j + 1
         htxt = src.text[src.toks[kw + 1].s:src.toks[j].s]
-        # strip generics
-        h = re.sub(r"<[^<>]*>", '', htxt)
-        h = re.sub(r"<[^<>]*>", '', h)
-        h = re.sub(r'\bwhere\b.*', '', h, flags=re.S)
-        hh = re.sub(r"<[^<>]*>", '', header)
-        hh = re.sub(r"<[^<>]*>", '', hh)
-        if norm(h) == norm(hh):
+        if _norm_impl_header(htxt) == _norm_impl_header(header):
             res.append((kw, j, src.pair[j], htxt.strip()))
     return res
 
@@ -446,6 +467,8 @@ class Extractor:
                 rep = self.subst(src, tmpl, caps)
                 edits.append((toks[ms].s, toks[me - 1].e, rep, 'E2'))
                 self.log('E2', what, text[toks[ms].s:toks[me - 1].e], rep)
+        if f.rename:
+            edits.append((toks[k + 1].s, toks[k + 1].e, f.rename, 'E9'))
         if canary:
             edits.append((toks[k + 1].e, toks[k + 1].e, '__canary', 'canary'))
         if generics:
@@ -590,6 +613,8 @@ class Extractor:
                     rep = self.subst(src, e.template, caps)
                     edits.append((toks[ms].s, toks[me - 1].e, rep, e.rule))
                     self.log(e.rule, what, text[toks[ms].s:toks[me - 1].e], rep + ('   // ' + e.why if e.why else ''))
+                elif isinstance(e, MatchFnClosures):
+                    pass  # applied to the assembled text below
                 elif isinstance(e, Tail):
                     check_ghost(e.text, what)
                     ts = body_tail_start(src, bo, bc)
@@ -605,6 +630,8 @@ class Extractor:
         start_off = head_start
         end_off = toks[bc].e
         out = apply_edits(text, start_off, end_off, edits, what)
+        if not f.external_body and any(isinstance(e, MatchFnClosures) for e in f.edits):
+            out = self.matchfn_closures(out, what)
         attrs = f.attrs
         if f.external_body:
             attrs = (attrs + '\n' if attrs else '') + '#[verifier::external_body]'
@@ -614,6 +641,38 @@ class Extractor:
         if not canary:
             self.fn_texts[f.qual] = plain
         return out, htxt, src.line_of(head_start)
+
+
+    def matchfn_closures(self, ftext, what):
+        """rule E3 for closures handed to MatchFn::new (see class MatchFnClosures); works on the assembled function text"""
+        toks = lex(ftext)
+        pair = match_brackets(toks)
+        p = Pattern('MatchFn :: new ( $cl )')
+        edits = []
+        n = 0
+        for (ms, me, caps) in p.find_all(toks, pair, 0, len(toks)):
+            a, b = caps['cl']
+            j = a
+            mv = ''
+            if toks[j].text == 'move':
+                mv = 'move '
+                j += 1
+            if j + 2 >= len(toks) or toks[j].text != '|' or toks[j + 2].text != '|' or toks[j + 1].kind != 'id':
+                continue
+            par = toks[j + 1].text
+            btxt = ftext[toks[j + 3].s:toks[b - 1].e]
+            par2 = '__ch' if par == '_' else par
+            ex_body = re.sub(r'\.\s*inner\s*\(\s*\)\s*\(', '.__call(', btxt)
+            rest = re.sub(r'\.__call\(', '(', ex_body)
+            if re.search(r'\.\s*[A-Za-z_]\w*\s*\(', rest):
+                continue  # calls something else than a captured MatchFn: not a boolean combination
+            sp_body = ex_body.replace('.__call(', '.sem()(')
+            n += 1
+            rep = ('{ let ghost __g%d = |%s: char| %s; let __cl%d = %s|%s: char| -> (b: bool) ensures b == (%s) { %s }; '
+                   'proof { assert(mf_models(__cl%d, __g%d)); } MatchFn::new(__cl%d) }') % (n, par2, sp_body, n, mv, par2, sp_body, ex_body, n, n, n)
+            edits.append((toks[ms].s, toks[me - 1].e, rep, 'E3'))
+            self.log('E3', what, ftext[toks[ms].s:toks[me - 1].e], rep)
+        return apply_edits(ftext, 0, len(ftext), edits, what)
 
     def subst(self, src, tmpl, caps):
         def rep(m):
@@ -1062,4 +1121,4 @@ def build_unit(unit, repo, unit_dir, canary=False):
 def as_contract(f, reason):
     """the same function, used through its contract only (body not verified in this unit)"""
     return Fn(f.file, f.impl, f.name, ret=f.ret, spec=f.spec, generics_dyn=f.generics_dyn, external_body=True,
-              trusted_reason=reason, as_inherent=f.as_inherent, sig_replace=f.sig_replace, impl_as=f.impl_as, qual_as=f.qual_as)
+              trusted_reason=reason, as_inherent=f.as_inherent, sig_replace=f.sig_replace, impl_as=f.impl_as, qual_as=f.qual_as, rename=f.rename)
